@@ -343,6 +343,38 @@ pub fn run(ctx: &Ctx) -> i32 {
         col.layer("one very long line", nhuge, true, json!({"line_lengths": lens_tried, "append_patterns": ["at once", "half + rest", "64 KiB + rest", "line + rest", "line minus last byte, 2 bytes, rest"]}));
     }
     executor_layer(ctx, &col);
+    // appended between the creation of the executor and its start: belongs to what is followed (with and without --head)
+    {
+        let mut npre = 0u64;
+        for head in [false, true] {
+            for prefix in [&b""[..], &b"old\n"[..], &b"old"[..]] {
+                for chunks in [vec![b"n1\n".to_vec()], vec![b"n1\nn2\n".to_vec(), b"n3\n".to_vec()], vec![b"n".to_vec(), b"1\n".to_vec()]] {
+                    npre += 1;
+                    col.eval(1);
+                    col.nontrivial(h64(&("pre-execute", head, prefix, &chunks)));
+                    let (delivered, end, ok) = follow_child_def(head, prefix, &chunks, "SELECT input FROM t", -3, None);
+                    let mut all: Vec<u8> = if head { prefix.to_vec() } else { Vec::new() };
+                    // (without --head only what is appended after the creation counts, also when the old content ends inside a line)
+                    for c in &chunks {
+                        all.extend_from_slice(c);
+                    }
+                    let want: Vec<String> = String::from_utf8_lossy(&all).lines().map(|l| format!("{{\"input\":{}}}", serde_json::to_string(l).unwrap())).collect();
+                    let got: Vec<String> = delivered.iter().filter(|l| l.starts_with('{')).cloned().collect();
+                    if got != want || end != "ok" || !ok {
+                        col.fail(fail(
+                            format!("follow-executor:{}:appended-before-start:{}", if head { "head" } else { "tail-start" }, if got.len() < want.len() { "line-lost" } else if got.len() > want.len() { "extra-delivery" } else { "line-content-differs" }),
+                            format!("FollowFileExecutor (head={}) created on a file holding {:?}; {:?} appended before execute(), the rest afterwards: delivered {:?}, expected {:?} (end={})", head, String::from_utf8_lossy(prefix), chunks.first().map(|c| String::from_utf8_lossy(c).to_string()), got, want, end),
+                            json!({"layer": "pre-execute", "head": head, "prefix_hex": hex(prefix), "chunks": chunks.iter().map(|c| hex(c)).collect::<Vec<_>>()}),
+                            json!(want),
+                            json!(got),
+                            npre,
+                        ));
+                    }
+                }
+            }
+        }
+        col.layer("appended between creation and start of the FollowFileExecutor", npre, true, json!({}));
+    }
     cli_follow_layer(&col);
     col.layer("iterator schedules", done, complete, json!({"contents": contents.len(), "max_chars": maxchars, "max_bytes": maxbytes, "cut_items": total, "capacities": CAPS}));
     finish(
@@ -383,7 +415,9 @@ pub fn child(args: &[String]) -> i32 {
     let running2 = running.clone();
     let mut follow_lines = 0i64;
     let mut appender = OpenOptions::new().append(true).open(&path).unwrap();
-    let mut next = 0usize;
+    // interrupt_at == -3: the first chunk is appended after the executor has been created and before it is started
+    let pre_chunk: Option<Vec<u8>> = if interrupt_at == -3 { chunks.first().cloned() } else { None };
+    let mut next = if pre_chunk.is_some() { 1usize } else { 0usize };
     verif_hooks::set(Box::new(move |p| {
         if p == Point::FollowLine {
             // the executor is about to load the running flag for the next delivered line
@@ -418,6 +452,9 @@ pub fn child(args: &[String]) -> i32 {
             return 0;
         }
     };
+    if let Some(c) = &pre_chunk {
+        OpenOptions::new().append(true).open(&path).unwrap().write_all(c).unwrap();
+    }
     let r = catch(|| ex.execute());
     verif_hooks::clear();
     println!("\nFOLLOW-APPENDED {}", APPENDED.load(std::sync::atomic::Ordering::SeqCst));
@@ -750,6 +787,10 @@ fn cli_follow_layer(col: &Collector) {
 }
 
 pub fn replay(case: &J) -> Vec<Failure> {
+    if case["layer"].as_str() == Some("pre-execute") {
+        println!("note: pre-execute cases are replayed by re-running `./check C10 quick`");
+        return vec![];
+    }
     if case["layer"].as_str() == Some("cli-follow") {
         let col = Collector::new();
         cli_follow_layer(&col);
